@@ -199,9 +199,14 @@ POLICIES = ['random', 'random', 'sticky0.5', 'sticky0.9', 'pct1', 'pct2', 'pct3'
 # scheduler
 # --------------------------------------------------------------------------------------------
 
+# operations that only look at shared state: a thread spinning on them must not starve the threads it
+# is watching, whatever the policy
+OBSERVATIONS = frozenset(['q.qsize', 'q.empty', 'q.full', 'e.is_set', 'l.locked', 'f.done', 't.is_alive'])
+
+
 class _TState:
     __slots__ = ('id', 'name', 'sem', 'pred', 'pending', 'state', 'real', 'deadline', 'timed_out',
-                 'kill', 'ident', 'daemon', 'is_main', 'seen_progress')
+                 'kill', 'ident', 'daemon', 'is_main', 'seen_progress', 'last_obs')
 
     def __init__(self, tid, name):
         self.id = tid
@@ -218,6 +223,7 @@ class _TState:
         self.daemon = False
         self.is_main = False
         self.seen_progress = 0
+        self.last_obs = -1
 
     def __repr__(self):
         return f'<T{self.id} {self.name} {self.state} {self.pending}>'
@@ -249,6 +255,12 @@ class Scheduler:
         self.max_live = 1
         self.harness_error = None
         self.progress = 0
+        self.preempt_p = 0.0     # probability that a source line of the library is a decision point
+        self.preempt_key = None  # (seed, run): per-thread PRNG streams for the line-level pre-emption
+        self.preempt_rngs = {}
+        self.pre_steps = 0
+        self.pre_cap = 400000
+        self.lib_prefix = None
         self.pollers = set()     # threads whose last timed wait expired and that have only done
         #                          non-blocking checks since (a polling loop between two polls)
         main = _TState(0, main_name)
@@ -320,11 +332,14 @@ class Scheduler:
         candidate: how much real time the others' computation takes is unconstrained, so its timer
         may fire at any decision point (it then proceeds as 'timed out')."""
         out = []
+        deferred = []
         for t in self.threads:
             if t.state == 'done':
                 continue
             p = t.pred
-            if p is None or p():
+            if p is None and t.pending in OBSERVATIONS and t.last_obs == self.progress:
+                deferred.append(t)        # looked already and nothing has happened since
+            elif p is None or p():
                 out.append(t)
             elif t.deadline is not None and self.progress > t.seen_progress:
                 # fairness: between two expiries of the same thread's timers somebody has taken a
@@ -335,6 +350,8 @@ class Scheduler:
             waiting = [t for t in self.threads if t.state != 'done' and t.deadline is not None]
             if waiting:
                 out.append(min(waiting, key=lambda t: (t.deadline, t.id)))
+        if not out:
+            out = deferred
         return out
 
     def _pick(self, me):
@@ -342,9 +359,14 @@ class Scheduler:
         runnable = self._runnable()
         if not runnable:
             return self._deliver_abort(me, SimDeadlock)
-        self.steps += 1
-        if self.steps > self.step_cap:
-            return self._deliver_abort(me, SimStepCap)
+        if me is not None and me.pending == 'pre':
+            self.pre_steps += 1            # line-level pre-emption points have their own budget
+            if self.pre_steps > self.pre_cap:
+                return self._deliver_abort(me, SimStepCap)
+        else:
+            self.steps += 1
+            if self.steps > self.step_cap:
+                return self._deliver_abort(me, SimStepCap)
         live = sum(1 for t in self.threads if t.state != 'done')
         if live > self.max_live:
             self.max_live = live
@@ -354,8 +376,10 @@ class Scheduler:
             chosen.timed_out = True
             self.count('timeout_fired')
             self.pollers.add(chosen.id)
+        elif chosen.pred is None and chosen.pending in OBSERVATIONS:
+            chosen.last_obs = self.progress      # looking is not progress
         elif chosen.id in self.pollers and chosen.pred is None:
-            # a poller looking at a flag between two polls: costs nothing, lets nobody else's timer fire
+            # a poller between two polls: costs nothing, lets nobody else's timer fire
             pass
         else:
             self.pollers.discard(chosen.id)
@@ -391,6 +415,33 @@ class Scheduler:
         chosen = self._pick(me)
         self.cur = chosen
         chosen.sem.release()
+
+    # -- line-level pre-emption ---------------------------------------------------------------
+    def enable_preemption(self, p, key, lib_prefix):
+        """Every source line executed inside the library (files under lib_prefix) by a simulated
+        thread becomes a decision point with probability p.  The draw comes from a PRNG stream per
+        thread (keyed by the thread's name), so which lines pre-empt is a function of that thread's
+        own execution path and stays put while a schedule is being minimised."""
+        self.preempt_p = p
+        self.preempt_key = key
+        self.lib_prefix = lib_prefix
+
+    def tracer(self, frame, event, arg):
+        if event == 'call' and frame.f_code.co_filename.startswith(self.lib_prefix):
+            return self._line_tracer
+        return None
+
+    def _line_tracer(self, frame, event, arg):
+        if event == 'line' and _current_sched is self and not self.killing and not self.aborted:
+            me = self.cur
+            if _thread.get_ident() == me.ident:
+                rng = self.preempt_rngs.get(me.name)
+                if rng is None:
+                    rng = self.preempt_rngs[me.name] = random.Random(f'{self.preempt_key}:pre:{me.name}')
+                if rng.random() < self.preempt_p:
+                    self.count('preemptions')
+                    self.yield_point('pre')
+        return self._line_tracer
 
     # -- end of run --------------------------------------------------------------------------
     def drain(self):
@@ -503,6 +554,9 @@ class SimThread:
             st.state = 'done'
             return
         st.state = 'running'
+        if s.preempt_p > 0:
+            import sys as _sys
+            _sys.settrace(s.tracer)
         try:
             self.run()
         except SimKilled:
@@ -522,7 +576,16 @@ class SimThread:
             raise RuntimeError("cannot join thread before it is started")
         s.yield_point('t.join', pred=lambda: st.state == 'done', timeout=timeout, info=(st.name,))
 
+    def _alive(self):
+        return self._state is not None and self._state.state != 'done'
+
     def is_alive(self):
+        s = _current_sched
+        if s is not None and not s.killing and not s.aborted:
+            s.yield_point('t.is_alive')
+        return self._alive()
+
+    def _unused(self):
         return self._state is not None and self._state.state != 'done'
 
     def setDaemon(self, v):
@@ -561,13 +624,21 @@ class SimQueue:
         return 0 < self.maxsize <= len(self.items)
 
     def qsize(self):
+        _current_sched.yield_point('q.qsize', info=(self.qname,))
         return len(self.items)
 
     def empty(self):
+        _current_sched.yield_point('q.empty', info=(self.qname,))
         return not self.items
 
     def full(self):
+        _current_sched.yield_point('q.full', info=(self.qname,))
         return self._full()
+
+    @property
+    def unfinished_tasks(self):
+        _current_sched.yield_point('q.qsize', info=(self.qname,))
+        return self.unfinished
 
     def put(self, item, block=True, timeout=None):
         s = _current_sched
@@ -693,6 +764,7 @@ class SimLock:
         self._owner = None
 
     def locked(self):
+        _yp('l.locked', info=(self.lname,))
         return self._owner is not None
 
     __enter__ = acquire
@@ -757,7 +829,7 @@ class SimCondition:
         return self._lock.__exit__(*exc)
 
     def wait(self, timeout=None):
-        if not self._lock.locked():
+        if self._lock._owner is None:
             raise RuntimeError('cannot wait on un-acquired lock')
         token = [False]
         self._waiters.append(token)
@@ -785,7 +857,7 @@ class SimCondition:
         return r
 
     def notify(self, n=1):
-        if not self._lock.locked():
+        if self._lock._owner is None:
             raise RuntimeError('cannot notify on un-acquired lock')
         _yp('c.notify')
         for token in self._waiters[:n]:
@@ -912,6 +984,9 @@ class SimFuture:
         self._cancelled = False
 
     def done(self):
+        s = _current_sched
+        if s is not None and not s.killing and not s.aborted:
+            s.yield_point('f.done', info=(self._n,))
         return self._done
 
     def cancelled(self):
@@ -1052,7 +1127,7 @@ class SimExecutor:
             for w in list(self._work):
                 w[0].cancel()
         if wait:
-            s.yield_point('ex.join', pred=lambda: all(not t.is_alive() for t in self._workers),
+            s.yield_point('ex.join', pred=lambda: all(not t._alive() for t in self._workers),
                           info=(self.ename,))
 
     def __enter__(self):
